@@ -572,7 +572,28 @@ func runProperty() int {
 			Workers:   *workers,
 			KeepLog:   true,
 		}
+		// redirect=<callee>:<harness func>[,…]: symbolic-only replacement of a callee of the package under
+		// test by a contract stub written in the harness file (natively the real callee runs; the witness
+		// replays compare observables, which validates the contract on every run).
+		eng.Redirects = map[string]*ssa.Function{}
+		var redirNotes []string
+		if r, ok := h.Opts["redirect"]; ok {
+			for _, pair := range strings.Split(r, ",") {
+				ft := strings.SplitN(pair, ":", 2)
+				to := pkg.Func(ft[1])
+				from := pkg.Func(ft[0])
+				if len(ft) != 2 || to == nil || from == nil {
+					fmt.Printf("ENGINE-ERROR bad redirect %q in %s\n", pair, h.Name)
+					return 2
+				}
+				eng.Redirects[from.String()] = to
+				redirNotes = append(redirNotes, from.String()+" -> "+to.String())
+			}
+		}
 		res := eng.Explore(fn, cfg)
+		for _, n := range redirNotes {
+			eng.StubsSeen["redirect "+n] = true
+		}
 		results = append(results, hres{h, res, cfg})
 		if *verbose {
 			fmt.Printf("  %s: paths=%d completed=%d infeasible=%d obligations=%d discharged=%d unknown=%d viol=%d aborts=%d wall=%.1fs\n",
